@@ -9,10 +9,12 @@ package main
 import (
 	"context"
 	"errors"
+	"fmt"
 	"io"
 	"log"
 	"net"
 	"sort"
+	"strings"
 	"sync"
 	"time"
 
@@ -35,7 +37,7 @@ const (
 	opRest             = 11
 	opPipelined        = 12
 	opConnectCancel    = 13 // the serve context is cancelled while this connection is being accepted
-	opConnectHeld      = 14 // serve is held between the accept stage and trackConn
+	opConnectHeld      = 14 // serve is held between the accept stage and its select / trackConn
 	opUnhold           = 15
 	opShutdownFresh    = 16 // Shutdown before Serve
 	opShutdownShortCtx = 17
@@ -81,6 +83,7 @@ type lcRun struct {
 	sdAsync   bool
 	sdSeen    int // evSdReturn events before the asynchronous Shutdown was started
 	cancelled bool
+	shutBegun bool // some Shutdown call has been made: isShutdown is (being) set
 	limit     int
 	inbound   int
 	refused   int
@@ -103,15 +106,20 @@ func (h lcHandler) Handle(ctx context.Context, received packet.Request) (packet.
 	id := ctx.Value(server.ContextRemoteAddr{}).(net.Addr).(memAddr).id
 	b := received.Bytes()
 	mode := int(b[8])
-	r.w.log(evHandlerStart, id, 0, 0)
+	// the release channel is taken in the same critical section that logs the start: a script step that
+	// has seen the start event and then releases always releases this handler
+	r.w.mu.Lock()
+	ch := r.release
+	r.w.logLocked(lcEvent{code: evHandlerStart, c: id})
+	r.w.mu.Unlock()
 	switch mode {
 	case hPanic:
-		r.w.log(evHandlerEnd, id, 0, 0)
+		r.w.mu.Lock()
+		r.w.conns[id].errsExpected++
+		r.w.logLocked(lcEvent{code: evHandlerEnd, c: id})
+		r.w.mu.Unlock()
 		panic(memErr{id, "handler panic"})
 	case hBlock:
-		r.w.mu.Lock()
-		ch := r.release
-		r.w.mu.Unlock()
 		<-ch
 	case hSleep:
 		time.Sleep(15 * time.Millisecond)
@@ -155,7 +163,23 @@ func runLifecycle(cfg int, script []lcOp) (events []lcEvent, extra [3]int, summa
 		s.OnServeFunc = func(addr net.Addr) { w.log(evServeCb, 0, 0, 0) }
 	}
 	if cfg&2 != 0 {
-		s.OnErrorFunc = func(err error) { w.log(evErrCb, 0, 0, 0) }
+		s.OnErrorFunc = func(err error) {
+			// which connection the error belongs to (only used by the script to know when a connection
+			// goroutine is past its last callback; the validator ignores it)
+			id := -1
+			var me memErr
+			if errors.As(err, &me) {
+				id = me.id
+			} else if i := strings.Index(err.Error(), "#c="); i >= 0 {
+				fmt.Sscanf(err.Error()[i:], "#c=%d#", &id)
+			}
+			w.mu.Lock()
+			if id >= 0 && id < len(w.conns) {
+				w.conns[id].errsSeen++
+			}
+			w.logLocked(lcEvent{code: evErrCb})
+			w.mu.Unlock()
+		}
 	}
 	if cfg&4 != 0 {
 		s.OnAcceptConnFunc = func(ctx context.Context, remoteAddr net.Addr, connectionCount uint64) error {
@@ -192,6 +216,8 @@ func runLifecycle(cfg int, script []lcOp) (events []lcEvent, extra [3]int, summa
 	start := 0
 	if len(script) > 0 && script[0].op == opShutdownFresh {
 		start = 1
+		r.shutBegun = true
+		r.stopped = true
 		w.logScript(evSdCall, 0, 0, 0)
 		code := 4
 		func() {
@@ -348,7 +374,8 @@ func (r *lcRun) awaitReplies(cl *lcClient, n int) {
 func (r *lcRun) awaitGone(cl *lcClient) {
 	c := cl.conn
 	r.w.waitFor("conn gone", func() bool {
-		return c.ownCloses >= 1 && (!r.onClose() || r.w.countLocked(evCloseCb, c.id) >= 1)
+		return c.ownCloses >= 1 && (!r.onClose() || r.w.countLocked(evCloseCb, c.id) >= 1) &&
+			(r.cfg&2 == 0 || c.errsSeen >= c.errsExpected)
 	})
 	r.w.mu.Lock()
 	c.clTakeFramesLocked()
@@ -402,6 +429,7 @@ func (r *lcRun) sortedClients() []int {
 }
 
 func (r *lcRun) shutdown(d time.Duration) int {
+	r.shutBegun = true
 	c2, cc := context.WithTimeout(context.Background(), d)
 	defer cc()
 	code := 4
@@ -483,9 +511,11 @@ func (r *lcRun) step(o lcOp) {
 			w.mu.Unlock()
 			cl.state = 3
 		case o.op == opConnectCancel:
-			cl.state = 4
+			// serve sees the cancelled context in its select: it closes the connection, runs the close
+			// callback and returns
 			r.stopped = true
 			r.awaitServe()
+			r.awaitGone(cl)
 			r.afterCancel()
 		case o.op == opConnectHeld:
 			w.waitFor("held", func() bool { return c.held })
@@ -746,12 +776,12 @@ func (r *lcRun) doUnhold() {
 	r.w.mu.Lock()
 	close(r.unhold)
 	r.unhold = make(chan struct{})
-	cancelled := r.cancelled
+	cancelled := r.cancelled || r.shutBegun
 	r.w.mu.Unlock()
 	for _, cl := range held {
 		if cancelled {
-			// the hold is after serve's select: the connection is tracked, its goroutine sees the
-			// cancelled context before the first Read and leaves
+			// the hold is before serve's select and trackConn: a cancelled context makes the select drop
+			// the connection, a Shutdown makes trackConn refuse it; either way serve closes it
 			r.awaitGone(cl)
 			continue
 		}
@@ -792,8 +822,8 @@ func (r *lcRun) finale() {
 // happens in between (the only cross-connection data flow is the counter read by the accept
 // callback) and no Shutdown is running (it holds the mutex the connections need to untrack), the
 // events of different connections are independent in the LTS; they are grouped by connection,
-// keeping each connection's own order.  Events without a connection keep their place
-// relative to each other and come first.
+// keeping each connection's own order.  Events without a connection (serve's return included: serve
+// itself closes rejected and dropped connections) delimit the segments and keep their place.
 func canonLog(evs []lcEvent) []lcEvent {
 	var out []lcEvent
 	flush := func(seg []lcEvent) {
@@ -818,7 +848,7 @@ func canonLog(evs []lcEvent) []lcEvent {
 	var seg []lcEvent
 	inShutdown := false // Shutdown holds the mutex: its visits and the connections' untracking are ordered
 	for _, e := range evs {
-		if e.script || e.code == evSdReturn {
+		if e.script || e.code == evSdReturn || e.code == evServeReturn {
 			if inShutdown {
 				out = append(out, seg...)
 			} else {
